@@ -1349,7 +1349,19 @@ func ruleC03Parse(c *Checker) {
 						if marked {
 							continue
 						}
-						for _, sx := range x.Succs {
+						// the true edge of a test of the rule's own mark: the rule is marked already
+						markedEdge := -1
+						if ifi, ok := x.Instrs[len(x.Instrs)-1].(*ssa.If); ok {
+							if ld, ok := ifi.Cond.(*ssa.UnOp); ok && ld.Op == token.MUL {
+								if f2, ok := ld.X.(*ssa.FieldAddr); ok && fieldOf(f2) == naVar {
+									markedEdge = 0
+								}
+							}
+						}
+						for k, sx := range x.Succs {
+							if k == markedEdge {
+								continue
+							}
 							if sx == head {
 								ok2, off = false, x.Instrs[len(x.Instrs)-1]
 								break
